@@ -3,6 +3,7 @@
 cd /verif
 for d in seeded/*/; do
   n=$(basename $d); prop=${n%%-*}
+  grep -q '"superseded"' $d/meta.json 2>/dev/null && { echo "$n: superseded by a repo fix (see meta.json)"; continue; }
   p=$d/patch.diff; [ -f $d/patch_rebased_on_current_repo.diff ] && p=$d/patch_rebased_on_current_repo.diff
   (cd /repo && git apply --check $PWD/../verif/$p 2>/dev/null) || { echo "$n: patch does not apply"; continue; }
   echo -n "$n: "; notes/run_mutant.sh /verif/$p $prop | head -1
